@@ -11,6 +11,9 @@ seeds=("$@")
 [ ${#seeds[@]} -eq 0 ] && seeds=(*)
 for s in "${seeds[@]}"; do
   [ -f "$s/patch.diff" ] || continue
+  if python3 -c "import json,sys; sys.exit(0 if 'retired' in json.load(open('$s/meta.json')) else 1)"; then
+    echo "RETIRED $s"; continue
+  fi
   prop=$(python3 -c "import json,sys; print(json.load(open('$s/meta.json'))['breaks_property'].split()[0])")
   # a seed is run against the check that catches it today (first check id named in checks_run), falling
   # back to the property it breaks
